@@ -178,6 +178,9 @@ def c04(run):
     _lzh_machine(run, [(314, 330, "lcg", 300), (314, 400, "zero", 300), (314, 400, "ff", 300), (314, 700, "aa", 800)], replay=False)
     # ... and its instances at the real constants: runs of equal literals across the capacity
     run.scen("MC_LzhRun", {"NSym": 314, "MaxCount": 65535})
+    # "extracting an LZH member from a volume writes exactly those bytes": archives of the reference encoder with LZH members, extracted in
+    # ascending and descending order through one object
+    run.scen("MC_VolRef", {}, small_heap=True, own=lambda m: "extract" in m["site"], name="MC_VolRef (LZH members extracted from volumes)")
     # the bit cursor under the decoder: every walk of bit / byte reads on four inputs
     for inp, depth in (("B0", 3), ("B1", 7), ("B2", 7), ("B3", 8 if run.thorough else 6)):
         g = vlib.generate("BitReader", {"Depth": depth}, invariants=("Bounded", "Export"), properties=("Monotone",), workers=4, subst={"Input": inp})
